@@ -949,6 +949,10 @@ type MacroNode struct {
 	defaults map[string]Node
 	body     []Node
 	line     int
+
+	// The macros defined at the top level of the same template: a macro can
+	// call them however it was reached itself (import, from, _self, directly)
+	siblings map[string]Node
 }
 
 func (n *MacroNode) Type() NodeType {
@@ -1095,6 +1099,9 @@ func (n *MacroNode) CallMacro(w io.Writer, ctx *RenderContext, args ...interface
 	macroCtx := NewRenderContext(ctx.env, nil, ctx.engine)
 	macroCtx.parent = ctx
 	macroCtx.sandboxed = ctx.sandboxed
+	for name, sibling := range n.siblings {
+		macroCtx.macros[name] = sibling
+	}
 	macroCtx.templateName = ctx.templateName
 
 	// Ensure context is released even in error paths
